@@ -393,6 +393,7 @@ def file_check(case):
             elif sig != outcome:
                 seen.setdefault("file:task-order", "%s: traces/templates differ from the natural task order" % ctx)
     # another recording written to the SAME path, extracted in the same process: nothing of the first one may survive
+    os.unlink(fbin)            # replaced, not overwritten: a stale mapping of the old file would keep showing the old samples
     fbin2, cal2, xy2 = _recording(d, fam, ns, mult=17)
     assert fbin2 == fbin
     out = os.path.join(d, "out")
